@@ -417,6 +417,8 @@ impl<F: PathFetcher> PathSet<F> {
     async fn fetch_and_update(&mut self, now: SystemTime, manager: &MultiPathManager<F>) {
         tracing::debug!("Refetching paths for src-dst pair");
 
+        #[cfg(anapaya_scion_sdk_verif)]
+        crate::path::manager::verif_sync::yield_point("lock.fetch_begin");
         // Set update state
         {
             let mut notify_guard = self.shared.sync.lock().unwrap();
@@ -462,6 +464,8 @@ impl<F: PathFetcher> PathSet<F> {
                     .expect("should have a path available, as new paths were ingested");
 
                 // Reset error state
+                #[cfg(anapaya_scion_sdk_verif)]
+                crate::path::manager::verif_sync::yield_point("lock.fetch_ok");
                 self.shared.sync.lock().unwrap().current_error = None;
                 self.internal.failed_attempts = 0;
                 // Update next refetch time
@@ -491,6 +495,8 @@ impl<F: PathFetcher> PathSet<F> {
                     "Failed to fetch new paths"
                 );
 
+                #[cfg(anapaya_scion_sdk_verif)]
+                crate::path::manager::verif_sync::yield_point("lock.fetch_err");
                 self.shared.sync.lock().unwrap().current_error = Some(Arc::new(e));
             }
         }
@@ -974,6 +980,8 @@ impl PathSetHandle {
 
     /// Awaits ongoing path update if there is one.
     pub async fn await_ongoing_update(&self) {
+        #[cfg(anapaya_scion_sdk_verif)]
+        crate::path::manager::verif_sync::yield_point("lock.await");
         let finish_notification = {
             let notify_guard = self.shared.sync.lock().unwrap();
             #[cfg(anapaya_scion_sdk_verif)]
@@ -996,6 +1004,8 @@ impl PathSetHandle {
 
     /// Returns the current fetch error, if any
     pub fn current_error(&self) -> Option<Arc<PathFetchError>> {
+        #[cfg(anapaya_scion_sdk_verif)]
+        crate::path::manager::verif_sync::yield_point("lock.current_error");
         self.shared.sync.lock().unwrap().current_error.clone()
     }
 
